@@ -178,10 +178,14 @@ pub fn oracle(id: &str, c: &Case, profile: &Profile, samples: &Samples) -> Verdi
         Reply::Done(out) => verdict_from(out, l.labels),
         Reply::Died { signal, code, phase, stderr } => {
             let alloc_fail = stderr.contains("memory allocation of");
-            if phase.starts_with("run:") && alloc_fail {
-                // the model's own resource use (docs/security.md: not limited)
+            if worker::executes_model(&phase) && alloc_fail {
+                // the model's own resource use (docs/security.md: not limited); the
+                // parse of the same bytes has been judged by the non-optimising loads
                 let mut labels = l.labels.clone();
-                labels.push("run:aborted:allocation-above-cap(resource use, not a violation)".into());
+                labels.push(format!(
+                    "{}:aborted:allocation-above-cap(resource use, not a violation)",
+                    if phase.starts_with("run:") { "run" } else { "optimising-load" }
+                ));
                 return Verdict::pass_l(true, labels.iter().map(|s| intern(s)).collect());
             }
             let what = match (signal, code) {
@@ -203,6 +207,14 @@ pub fn oracle(id: &str, c: &Case, profile: &Profile, samples: &Samples) -> Verdi
                     if stderr.is_empty() { "<empty>" } else { &stderr }
                 ),
             )
+        }
+        Reply::Hung { phase, spinning: true, .. } if worker::executes_model(&phase) => {
+            let mut labels = l.labels.clone();
+            labels.push(format!(
+                "{}:abandoned-after-5s-cpu(running time is resource use, not a violation)",
+                if phase.starts_with("run:") { "run" } else { "optimising-load" }
+            ));
+            Verdict::pass_l(true, labels.iter().map(|s| intern(s)).collect())
         }
         Reply::Hung { phase, cpu_s, spinning } => {
             let p = worker::save_hang(id, l.fmt, &l.bytes, &phase);
